@@ -26,6 +26,21 @@ CHECKS = {
   "Every JSON tree with <=5 (thorough 7) nodes, leaves relabelled by pre-order index x .*, [*], .**{a to b} for all a,b in {0..4,last}, alone and followed by one more accessor x modes x decodings, compared with an explicit depth-annotated tree walk, plus .** == .**{0 to last} as a relation between real executions.",
   "Trees beyond the node bound and level bounds beyond 4 are not covered; member order of multi-member objects compared as multisets.",
   "DESIGN.md §3 C15"),
+ "C09": ("model_checking", "step-graph",
+  "explicit-state exploration over the real step function: depth-first over every chain of steps per document, state = produced item sequence, every transition validated against per-item composition; register-restoration programs against the reference model",
+  "For every document (<=4 nodes) and both modes, every chain of <=3 (thorough 4) steps over a 34-step alphabet is executed on the real code; each transition Query(P.s,d) must equal the concatenation over the items x of Query(P,d) of Query($.s,x), failing iff one of them fails. Variable/literal starts, keyvalue base-object restoration and @/last/$ restoration after nested constructs (all operand orders) are enumerated as well.",
+  "Strict-mode steps after .** are excluded as the property says; keyvalue ids are masked; chains and documents beyond the bounds are not covered.",
+  "DESIGN.md §3 C09"),
+ "C10": ("model_checking", "ref-conformance",
+  "bounded exhaustive enumeration of prefix x condition x document; oracle = relation between three real executions plus the reference interpreter",
+  "Every prefix (10) x every condition of a generated pool (31 base conditions of every predicate kind incl. nested filters, soft and hard errors; negations, is-unknown, all ordered pairs under && and ||) x every document (<=3 nodes; thorough 4) x both modes: Query(P ? (C)) must be the order-preserving subsequence of P's (lax-unwrapped) items for which C[@:=$] as a predicate check is true; hard errors abort; containers pointer-identical; strict consecutive filters equal their conjunction; all cross-checked against the reference model.",
+  "Conditions and prefixes outside the generated pools are not covered.",
+  "DESIGN.md §3 C10"),
+ "C11": ("model_checking", "ref-conformance",
+  "complete truth-table enumeration (every operand assignment x every realisation pair x every context x both modes) and exhaustive law checking over condition pairs",
+  "All 16 (4 for unary) operand assignments over {T,F,U,hard error} for &&, ||, !, is unknown, each outcome realised by every member of a 9-13 member family (so every ordered pair of realisations), observed through Query, Match, a filter, exists(filter) and filter+is unknown in both modes, against the Kleene tables; then commutativity, double negation, De Morgan, is-unknown two-valuedness and the tables themselves over all ordered pairs of a 75-condition pool x all documents, as predicate checks and inside filters.",
+  "Conditions outside the families/pools are not covered; with a hard-error operand either the error or the value decided by the other operand is accepted.",
+  "DESIGN.md §3 C11"),
 }
 
 PENDING = {}
@@ -62,6 +77,7 @@ def main():
         },
         "engines": [
             {"name": "ref-conformance", "path": "/verif/mc", "serves_properties": [], "kind_free_text": "bounded exhaustive enumeration of programs x documents x configurations against a reference interpreter / relations between real executions"},
+            {"name": "step-graph", "path": "/verif/mc/c09.go", "serves_properties": ["C09"], "kind_free_text": "explicit-state exploration whose transition function is the real Query"},
             {"name": "poll-fault", "path": "/verif/mc/c20.go", "serves_properties": ["C20"], "kind_free_text": "fault-point enumeration over context polls"},
         ],
         "checks": checks,
